@@ -314,8 +314,11 @@ def socket_run(P, rec, r, size, nclients, inject, unix=False):
         """a client that uses ONE Proxy object and simply tries again after a refusal: every attempt is served or refused with the reason"""
         time.sleep(delay)
         p = fx.proxy("svc", serializer="marshal", timeout=20.0)
+        backlog_retries = [0]
         try:
-            for attempt in range(4):
+            attempt = -1
+            while attempt < 3:
+                attempt += 1
                 tok = "c%d" % i if attempt == 0 else "c%d.%d" % (i, attempt)
                 try:
                     a = p.enter(tok)
@@ -327,6 +330,15 @@ def socket_run(P, rec, r, size, nclients, inject, unix=False):
                     if "no free workers" in str(x):
                         results.append((tok, "refused", str(x), None))
                         time.sleep(0.01 + 0.01 * attempt)
+                        continue
+                    if unix and ("Transport endpoint is not connected" in str(x) or "Resource temporarily unavailable" in str(x)) and backlog_retries[0] < 40:
+                        # a unix-domain connect() fails at once with EAGAIN while the listener's backlog is full (the proxy then finds its socket
+                        # unconnected): the kernel's queue, not the daemon's answer - this connection was never accepted. Try again.
+                        backlog_retries[0] += 1
+                        rec.count("unix_backlog_full_retries")
+                        p._pyroRelease()
+                        time.sleep(0.02)
+                        attempt -= 1          # (not an attempt the daemon ever saw)
                         continue
                     results.append((tok, "error", "attempt %d of one Proxy object (after %d refusal(s)): %r" % (attempt + 1, attempt, x), None))
                     return
